@@ -134,7 +134,7 @@ pub trait Read: Sized {
         ensures
             final(self).wf(),
             r is Ok ==> n <= old(self).unread().len() && r->Ok_0@ =~= old(self).unread().subrange(0, n as int) && final(self).unread() =~= old(self).unread().skip(n as int)
-                && final(self).consumed() == old(self).consumed() + n,                                       // [C20.reader.read-exact] read_bytes(n) returns exactly the next n bytes and consumes exactly them
+                && final(self).consumed() == old(self).consumed() + n,                                       // [C20.reader.read-exact] [C01.reader.read-exact] read_bytes(n) returns exactly the next n bytes and consumes exactly them
             r is Err ==> final(self).unread().len() <= old(self).unread().len(),                             // [C04.reader.error-loses-only-input]
             final(self).reliable() == old(self).reliable(), old(self).reliable() && n <= old(self).unread().len() ==> r is Ok,   // [C05.reader.available-bytes-are-delivered]
 //@@ loop 0 optional
@@ -411,7 +411,7 @@ impl Category {
             Ok(Category::Compound(w)) => nibble_kind(value as u8) == 2 && w == nibble_width(value as u8),
             Ok(Category::Array(w)) => nibble_kind(value as u8) == 3 && w == nibble_width(value as u8),
             Err(_) => value is DescribedType,
-        }),                                                                                                      // [C05.format-code.width-by-constructor] the category and width the scanner uses for a format code are the ones its high nibble stands for in the AMQP type system                                                                                                      // [C04.scan.width-table] every variable-width, compound and array constructor has a 1- or 4-byte size field: the scanner's `unreachable!()` really is
+        }),                                                                                                      // [C05.format-code.width-by-constructor] [C03.format-code.width-by-constructor] the category and width the scanner uses for a format code are the ones its high nibble stands for in the AMQP type system                                                                                                      // [C04.scan.width-table] every variable-width, compound and array constructor has a 1- or 4-byte size field: the scanner's `unreachable!()` really is
 //@@ end
 }
 
@@ -590,7 +590,7 @@ impl<'s> SliceReader<'s> {
 //@@ ret Result<VisValue, Error>
 //@@ spec
     requires bounded(*old(self)),
-    ensures bytes_forwarded(*old(self), *final(self), len, visitor, r), final(self).wf(),     // [C20.reader.forward-exact] (spelled out in bytes_forwarded above)
+    ensures bytes_forwarded(*old(self), *final(self), len, visitor, r), final(self).wf(),     // [C20.reader.forward-exact] [C10.reader.forward-exact] (spelled out in bytes_forwarded above)
 //@@ end
 }
 impl<'s> SliceReader<'s> {
@@ -632,7 +632,7 @@ impl IoReader {
 //@@ subst `std::mem::take(&mut self.buf)` => `vec_take(&mut self.buf)` rule=optional-R9
 //@@ spec
     requires bounded(*old(self)),
-    ensures bytes_forwarded(*old(self), *final(self), len, visitor, r), final(self).wf(),     // [C20.reader.forward-exact] (spelled out in bytes_forwarded above)
+    ensures bytes_forwarded(*old(self), *final(self), len, visitor, r), final(self).wf(),     // [C20.reader.forward-exact] [C10.reader.forward-exact] (spelled out in bytes_forwarded above)
 //@@ end
 }
 
